@@ -187,6 +187,8 @@ func (w *vfWorld) tellName(name string, cmd *vfCmd) {
 
 func (w *vfWorld) wait() { synctest.Wait() }
 
+func synctestWait() { synctest.Wait() }
+
 // settle = quiescence, then let virtual time pass (pending timers fire), then quiescence again.
 func (w *vfWorld) settle(d time.Duration) {
 	synctest.Wait()
